@@ -1,19 +1,35 @@
 /- GENERATED: instance obligations for one logic, discharged by kernel evaluation.
-   `X ⊆ known`: every failing row is a committed known finding (Ptx/Gen/Known.lean). -/
+   `S` = the logic with its DOCUMENTED tables (Ptx/Sem/Spec.lean); rules, closure, trunk and frames
+   are what the translator read off the code.  `X ⊆ known`: every failing row is a committed
+   known finding (Ptx/Gen/Known.lean, generated from known_findings.json). -/
 import Ptx.Gen.L_TL3
 import Ptx.Gen.Known
 import Ptx.Sem.Subset
+import Ptx.Props.C01
+import Ptx.Gen.L_L3
 namespace Ptx.Gen.Obl.TL3
 open Ptx
 
-theorem tables_total : Gen.TL3.tablesTotalB = true := by decide +kernel
-theorem rules_exact : subsetB Gen.TL3.badRules (Known.badRules "TL3") = true := by decide +kernel
-theorem rules_sound : subsetB Gen.TL3.unsoundRules (Known.unsoundRules "TL3") = true := by decide +kernel
-theorem rules_total : subsetB Gen.TL3.missingRules (Known.missingRules "TL3") = true := by decide +kernel
-theorem rules_local : Gen.TL3.nonLocalRules = [] := by decide +kernel
-theorem closure_total : Gen.TL3.closureTotalB = true := by decide +kernel
-theorem closure_exact : subsetB Gen.TL3.badClosure (Known.badClosure "TL3") = true := by decide +kernel
-theorem read_total : Gen.TL3.readTotalB = true := by decide +kernel
-theorem read_exact : subsetB Gen.TL3.badRead (Known.badRead "TL3") = true := by decide +kernel
+/-- a modal / first-order extension has exactly the truth-functional tables of its base (L3) -/
+theorem base_tables : Gen.TL3.tables.sameTF Gen.L3.tables = true := by decide +kernel
+theorem spec_defined : Gen.TL3.specDefinedB = true := by decide +kernel
+theorem tables_spec : subsetB Gen.TL3.tableDiff (Known.tableDiff "TL3") = true := by decide +kernel
+theorem defined_ops : Gen.TL3.tables.definedOpsBad = [] := by decide +kernel
+theorem tables_total : Gen.TL3.sem.tablesTotalB = true := by decide +kernel
+theorem rules_exact : subsetB Gen.TL3.sem.badRules (Known.badRules "TL3") = true := by decide +kernel
+theorem rules_sound : subsetB Gen.TL3.sem.unsoundRules (Known.unsoundRules "TL3") = true := by decide +kernel
+theorem rules_total : subsetB Gen.TL3.sem.missingRules (Known.missingRules "TL3") = true := by decide +kernel
+theorem rules_local : Gen.TL3.sem.nonLocalRules = [] := by decide +kernel
+theorem closure_total : Gen.TL3.sem.closureTotalB = true := by decide +kernel
+theorem closure_exact : subsetB Gen.TL3.sem.badClosure (Known.badClosure "TL3") = true := by decide +kernel
+theorem read_total : Gen.TL3.sem.readTotalB = true := by decide +kernel
+theorem read_exact : subsetB Gen.TL3.sem.badRead (Known.badRead "TL3") = true := by decide +kernel
+theorem sound_core : Gen.TL3.sem.soundCoreB = true := by decide +kernel
+
+/-- C01 for this logic: a closed tableau reached by any legal derivation has no countermodel. -/
+theorem c01_valid_sound (arg : Argument) (t : Tableau)
+    (hd : Deriv Gen.TL3.sem.soundPart.noQuantPart (trunk Gen.TL3.sem arg) t) (hclosed : t.allClosed = true)
+    (M : Struct) (hM : M.Interp Gen.TL3.sem) (e : Env M.D) (w0 : M.W) : ¬ Countermodel Gen.TL3.sem M e w0 arg :=
+  Props.C01.C01_valid_sound_partial Gen.TL3.sem sound_core arg t hd hclosed M hM e w0
 
 end Ptx.Gen.Obl.TL3
